@@ -303,10 +303,16 @@ fn concat<T: Text + ?Sized>(hs: &[H], t: &T, i: usize, caps: &mut Caps, k: K<'_>
 /// `n` iterations done so far; `prev_empty`: the last one consumed nothing.
 ///
 /// Thompson construction of regex-automata: `x{n,}` = x^(n-1) x+ with x+ a do-while
-/// loop, `x*` over a nullable x = (x+)?; a thread that re-enters the loop head at the
-/// same position dies (visited set of the epsilon closure).  Hence: an optional
-/// iteration of an unbounded loop is not started if the previous one consumed
-/// nothing.  Bounded repetitions are nested optionals without cycles.
+/// loop (`x; plus: union[x.start, exit]`), `x*` over a nullable x = (x+)?.  A thread
+/// that reaches an NFA state it already visited at the same position dies (sparse set
+/// of the epsilon closure).  Consequences for the unbounded loop, with
+/// L = max(min, 1) "first-entry" iterations:
+///  * iterations with index < L may match empty;
+///  * a loop-back iteration (index >= L) is not started when the previous iteration
+///    consumed nothing (x.start already visited), and it dies if it consumes nothing
+///    itself (it would come back to the visited `plus` state) -- the other
+///    alternatives inside the body keep their priority.
+/// Bounded repetitions are nested optionals without cycles: no restriction.
 fn rep<T: Text + ?Sized>(
     sub: &H,
     min: u32,
@@ -322,12 +328,22 @@ fn rep<T: Text + ?Sized>(
     if n < min {
         return m(sub, t, i, caps, &mut |j, c: &mut Caps| rep(sub, min, max, greedy, n + 1, j == i, t, j, c, k));
     }
+    let first_entries = if min > 1 { min } else { 1 };
+    let loop_back = max.is_none() && n >= first_entries;
     let can_more = match max {
         Some(mx) => n < mx,
-        None => !(n >= 1 && prev_empty),
+        None => !(loop_back && prev_empty),
     };
     if greedy {
-        if can_more && m(sub, t, i, caps, &mut |j, c: &mut Caps| rep(sub, min, max, greedy, n + 1, j == i, t, j, c, k)) {
+        if can_more
+            && m(sub, t, i, caps, &mut |j, c: &mut Caps| {
+                if loop_back && j == i {
+                    false
+                } else {
+                    rep(sub, min, max, greedy, n + 1, j == i, t, j, c, k)
+                }
+            })
+        {
             return true;
         }
         k(i, caps)
@@ -335,7 +351,14 @@ fn rep<T: Text + ?Sized>(
         if k(i, caps) {
             return true;
         }
-        can_more && m(sub, t, i, caps, &mut |j, c: &mut Caps| rep(sub, min, max, greedy, n + 1, j == i, t, j, c, k))
+        can_more
+            && m(sub, t, i, caps, &mut |j, c: &mut Caps| {
+                if loop_back && j == i {
+                    false
+                } else {
+                    rep(sub, min, max, greedy, n + 1, j == i, t, j, c, k)
+                }
+            })
     }
 }
 
